@@ -164,7 +164,11 @@ func runC20(c *Check) {
 			sl := backSlice(st.Val, SliceOpt{CallArgs: true})
 			switch fieldOf(fa).Name() {
 			case "Height", "Header":
-				c.Ob("R20.1", "response."+fieldOf(fa).Name(), sl.Has(hdrVal), p.Pos(st.Pos()), "derives from the header received in this iteration")
+				arith := sl.Has(func(v ssa.Value) bool {
+					bo, ok := v.(*ssa.BinOp)
+					return ok && (bo.Op == token.ADD || bo.Op == token.SUB || bo.Op == token.MUL || bo.Op == token.QUO || bo.Op == token.REM)
+				})
+				c.Ob("R20.1", "response."+fieldOf(fa).Name(), sl.Has(hdrVal) && !arith, p.Pos(st.Pos()), "is the received header's own value (derived from the header of this iteration, with no arithmetic on the way)")
 			case "Blobs":
 				okB := sl.Has(func(v ssa.Value) bool {
 					g, ok := v.(*ssa.Call)
